@@ -1,10 +1,10 @@
 #!/bin/bash
-# tools/sweep.sh <tier> <seed...> : run every claimed check for each seed, print one line per run
+# tools/sweep.sh <tier> <seed...> : run every claimed check (or those in $PROPS) for each seed, print one line per run
 TIER=${1:-quick}; shift
 SEEDS=${*:-1}
 cd "$(dirname "$0")/.."
 for S in $SEEDS; do
-  for P in $(python3 -c "import json; print(' '.join(c['property_id'] for c in json.load(open('MANIFEST.json'))['checks']))"); do
+  for P in ${PROPS:-$(python3 -c "import json; print(' '.join(c['property_id'] for c in json.load(open('MANIFEST.json'))['checks']))")}; do
     T0=$(date +%s.%N)
     OUT=$(VERIF_SEED=$S ./run.sh $P $TIER 2>&1); RC=$?
     T1=$(date +%s.%N)
